@@ -808,4 +808,357 @@ def coerce (bnd : BoundFn) (d : Dest) (g : G) : Option G :=
 /-- capacity of `make([]T, 0, min(num, cap))` -/
 def allocCap (num cap : Nat) : Nat := if num > cap then cap else num
 
+
+/-! #### the capacities requested by the decoders' own `make` calls, summed over one decode call
+
+  (Length guards are written with `lenLt`, i.e. `decide (len < n)` by `lenLt_eq`, so that the compiled
+  functions do not walk the whole slice at every guard.)
+
+  Each function below mirrors the control flow of the decoder of the same name (it calls that decoder
+  to learn how far a loop gets) and adds up the byte size of every `make(T, 0, alloc)` that the Go
+  code executes on that path — `alloc` being the claimed element count capped exactly where and how
+  the Go code caps it (`MaxPointsAlloc` / `MaxMultiAlloc`, regenerated into `Generated.Params`).  A
+  failing decode is accounted up to and including the call that fails.  Not accounted: what `append`
+  adds beyond a capped capacity (amortised, bounded by a constant times the final length, which
+  `elemCount_le` bounds), `bytes.NewReader`, `NewDecoder`, error values. -/
+
+/-- `orb.Point` = `[2]float64` -/
+def szPoint : Nat := 16
+/-- a slice header: `orb.LineString` / `orb.Ring` / `orb.Polygon` as the element of a multi -/
+def szSlice : Nat := 24
+/-- an `orb.Geometry` interface value (element of `orb.Collection`) -/
+def szIface : Nat := 16
+/-- `Decoder.Decode`: `buf := make([]byte, 8)` -/
+def szBuf : Nat := 8
+
+/-! ##### byte-slice path -/
+
+/-- `unmarshalPoints`: `make([]orb.Point, 0, min(num, MaxPointsAlloc))`, reached only after both
+    length guards. -/
+def unmarshalPointsAlloc (o : Order) (data : Bytes) : Nat :=
+  if lenLt data 4 then 0 else
+  if lenLt (data.drop 4) (rd32 o data * 16) then 0 else
+  szPoint * allocCap (rd32 o data) wkb_MaxPointsAlloc
+
+/-- `unmarshalPolygon`: `make(orb.Polygon, 0, min(num, MaxMultiAlloc))` BEFORE any ring is looked at,
+    then `unmarshalPoints` per ring. -/
+def unmarshalPolygonAlloc (o : Order) (data : Bytes) : Nat :=
+  if lenLt data 4 then 0 else
+  szSlice * allocCap (rd32 o data) wkb_MaxMultiAlloc + loop (rd32 o data) (data.drop 4)
+where
+  loop : Nat → Bytes → Nat
+    | 0, _ => 0
+    | n+1, data =>
+      unmarshalPointsAlloc o data +
+      match unmarshalPoints o data with
+      | .ok ps =>
+        (match sliceFrom data (16 * ps.length + 4) with
+         | .ok rest => loop n rest
+         | _ => 0)
+      | _ => 0
+
+/-- member loop of the three `unmarshalMulti*`: the member scan's own allocations, then on. -/
+def memberLoopAlloc {β : Type} (scan : Bytes → R (β × Nat)) (scanAlloc : Bytes → Nat) (stride : β → Nat) :
+    Nat → Bytes → Nat
+  | 0, _ => 0
+  | n+1, data =>
+    scanAlloc data +
+    match scan data with
+    | .ok (x, _) =>
+      (match sliceFrom data (stride x) with
+       | .ok rest => memberLoopAlloc scan scanAlloc stride n rest
+       | _ => 0)
+    | _ => 0
+
+/-- `ScanPoint` / `ScanLineString` / `ScanPolygon`: whichever decoder the header selects. -/
+def scanSingleAlloc (tSingle tMulti : Nat) (singleAlloc multiAlloc : Order → Bytes → Nat) (data : Bytes) : Nat :=
+  match unmarshalBOT data with
+  | .ok (o, typ, _, geomData) =>
+    if typ = tSingle then singleAlloc o geomData
+    else if typ = tMulti then multiAlloc o geomData
+    else 0
+  | _ => 0
+
+/-- `unmarshalMulti*`: `make(…, 0, min(num, MaxMultiAlloc))` of `sz`-byte elements BEFORE any member
+    is looked at, then the member loop (whose scans recurse into this function for a nested multi). -/
+def unmarshalMultiFAlloc {β : Type} (sz tSingle tMulti : Nat) (single : Order → Bytes → R β)
+    (singleAlloc : Order → Bytes → Nat) (stride : β → Nat) : Nat → Order → Bytes → Nat
+  | 0, _, _ => 0
+  | fuel+1, o, data =>
+    if lenLt data 4 then 0 else
+    sz * allocCap (rd32 o data) wkb_MaxMultiAlloc +
+    memberLoopAlloc (scanSingle tSingle tMulti single (unmarshalMultiF tSingle tMulti single stride fuel))
+      (scanSingleAlloc tSingle tMulti singleAlloc
+        (unmarshalMultiFAlloc sz tSingle tMulti single singleAlloc stride fuel))
+      stride (rd32 o data) (data.drop 4)
+
+/-! One-pass twins (result and accounting together) for the compiled driver: the definitions above
+    decode a member once for its result and once more at every enclosing level for its accounting, which
+    is cubic on the nested one-member multis that make the decoder itself quadratic.  Kernel-checked
+    `@[csimp]` equation; every theorem is about the definitions above. -/
+
+def memberLoopP {β : Type} (scanP : Bytes → R (β × Nat) × Nat) (stride : β → Nat) :
+    Nat → Bytes → R (List β) × Nat
+  | 0, _ => (.ok [], 0)
+  | n+1, data =>
+    match scanP data with
+    | (.ok (x, _), a) =>
+      (match sliceFrom data (stride x) with
+       | .ok rest =>
+         (match memberLoopP scanP stride n rest with
+          | (.ok xs, b) => (.ok (x :: xs), a + b)
+          | (.err e, b) => (.err e, a + b)
+          | (.panic s, b) => (.panic s, a + b))
+       | .err e => (.err e, a + 0)
+       | .panic s => (.panic s, a + 0))
+    | (.err e, a) => (.err e, a + 0)
+    | (.panic s, a) => (.panic s, a + 0)
+
+theorem memberLoopP_eq {β : Type} (scan : Bytes → R (β × Nat)) (scanAlloc : Bytes → Nat)
+    (scanP : Bytes → R (β × Nat) × Nat) (stride : β → Nat) (h : ∀ d, scanP d = (scan d, scanAlloc d)) (n : Nat) :
+    ∀ data, memberLoopP scanP stride n data =
+      (memberLoop scan stride n data, memberLoopAlloc scan scanAlloc stride n data) := by
+  induction n with
+  | zero => intro data; rfl
+  | succ n ih =>
+    intro data
+    simp only [memberLoopP, memberLoop, memberLoopAlloc, h data]
+    cases scan data with
+    | ok xs =>
+      cases xs with
+      | mk x s =>
+        simp only []
+        cases sliceFrom data (stride x) with
+        | ok rest =>
+          simp only [ih rest]
+          cases memberLoop scan stride n rest <;> rfl
+        | err e => rfl
+        | panic m => rfl
+    | err e => rfl
+    | panic m => rfl
+
+def scanSingleP {β : Type} (tSingle tMulti : Nat) (single : Order → Bytes → R β)
+    (singleAlloc : Order → Bytes → Nat) (multiP : Order → Bytes → R (List β) × Nat) (data : Bytes) :
+    R (β × Nat) × Nat :=
+  match unmarshalBOT data with
+  | .ok (o, typ, srid, geomData) =>
+    if typ = tSingle then
+      ((match single o geomData with
+        | .ok p => .ok (p, srid)
+        | .err e => .err e
+        | .panic s => .panic s), singleAlloc o geomData)
+    else if typ = tMulti then
+      ((match (multiP o geomData).1 with
+        | .ok [p] => .ok (p, srid)
+        | .ok _ => .err .incorrectGeometry
+        | .err e => .err e
+        | .panic s => .panic s), (multiP o geomData).2)
+    else (.err .incorrectGeometry, 0)
+  | .err e => (.err e, 0)
+  | .panic s => (.panic s, 0)
+
+theorem scanSingleP_eq {β : Type} (tSingle tMulti : Nat) (single : Order → Bytes → R β)
+    (singleAlloc multiAlloc : Order → Bytes → Nat) (multi : Order → Bytes → R (List β))
+    (multiP : Order → Bytes → R (List β) × Nat) (h : ∀ o d, multiP o d = (multi o d, multiAlloc o d)) (data : Bytes) :
+    scanSingleP tSingle tMulti single singleAlloc multiP data =
+      (scanSingle tSingle tMulti single multi data, scanSingleAlloc tSingle tMulti singleAlloc multiAlloc data) := by
+  unfold scanSingleP scanSingle scanSingleAlloc
+  cases unmarshalBOT data with
+  | ok v =>
+    obtain ⟨o, typ, srid, gd⟩ := v
+    simp only [h]
+    split
+    · rfl
+    · split <;> rfl
+  | err e => rfl
+  | panic m => rfl
+
+def unmarshalMultiFP {β : Type} (sz tSingle tMulti : Nat) (single : Order → Bytes → R β)
+    (singleAlloc : Order → Bytes → Nat) (stride : β → Nat) : Nat → Order → Bytes → R (List β) × Nat
+  | 0, _, _ => (.panic "fuel", 0)
+  | fuel+1, o, data =>
+    if lenLt data 4 then (.err .notWKB, 0) else
+    let r := memberLoopP (scanSingleP tSingle tMulti single singleAlloc
+      (unmarshalMultiFP sz tSingle tMulti single singleAlloc stride fuel)) stride (rd32 o data) (data.drop 4)
+    (r.1, sz * allocCap (rd32 o data) wkb_MaxMultiAlloc + r.2)
+
+theorem unmarshalMultiFP_eq {β : Type} (sz tSingle tMulti : Nat) (single : Order → Bytes → R β)
+    (singleAlloc : Order → Bytes → Nat) (stride : β → Nat) (fuel : Nat) :
+    ∀ o data, unmarshalMultiFP sz tSingle tMulti single singleAlloc stride fuel o data =
+      (unmarshalMultiF tSingle tMulti single stride fuel o data,
+       unmarshalMultiFAlloc sz tSingle tMulti single singleAlloc stride fuel o data) := by
+  induction fuel with
+  | zero => intro o data; rfl
+  | succ fuel ih =>
+    intro o data
+    simp only [unmarshalMultiFP, unmarshalMultiF, unmarshalMultiFAlloc, lenLt_eq, decide_eq_true_eq]
+    split
+    · rfl
+    · rw [memberLoopP_eq _ _ _ _ (fun d => scanSingleP_eq _ _ _ _ _ _ _ ih d)]
+
+def unmarshalMultiFAllocFast {β : Type} (sz tSingle tMulti : Nat) (single : Order → Bytes → R β)
+    (singleAlloc : Order → Bytes → Nat) (stride : β → Nat) (fuel : Nat) (o : Order) (data : Bytes) : Nat :=
+  (unmarshalMultiFP sz tSingle tMulti single singleAlloc stride fuel o data).2
+
+@[csimp] theorem unmarshalMultiFAlloc_eq_fast : @unmarshalMultiFAlloc = @unmarshalMultiFAllocFast := by
+  funext β sz tSingle tMulti single singleAlloc stride fuel o data
+  simp only [unmarshalMultiFAllocFast, unmarshalMultiFP_eq]
+
+def unmarshalMultiPointAlloc (fuel : Nat) : Order → Bytes → Nat :=
+  unmarshalMultiFAlloc szPoint wkb_pointType wkb_multiPointType unmarshalPoint (fun _ _ => 0) (fun _ => 21) fuel
+
+def unmarshalMultiLineStringAlloc (fuel : Nat) : Order → Bytes → Nat :=
+  unmarshalMultiFAlloc szSlice wkb_lineStringType wkb_multiLineStringType unmarshalPoints unmarshalPointsAlloc
+    (fun ls => 16 * ls.length + 9) fuel
+
+def unmarshalMultiPolygonAlloc (fuel : Nat) : Order → Bytes → Nat :=
+  unmarshalMultiFAlloc szSlice wkb_polygonType wkb_multiPolygonType unmarshalPolygon unmarshalPolygonAlloc
+    polyStride fuel
+
+/-! ##### stream path -/
+
+/-- `readLineString`: `make(orb.LineString, 0, min(num, MaxPointsAlloc))` as soon as the count is read,
+    BEFORE any point is. -/
+def readLineStringAlloc (o : Order) (s : Bytes) : Nat :=
+  match readU32 o s with
+  | .ok (num, _) => szPoint * allocCap num wkb_MaxPointsAlloc
+  | _ => 0
+
+def readRingsLoopAlloc (o : Order) : Nat → Bytes → Nat
+  | 0, _ => 0
+  | n+1, s =>
+    readLineStringAlloc o s +
+    match readLineString o s with
+    | .ok (_, s) => readRingsLoopAlloc o n s
+    | _ => 0
+
+/-- `readPolygon`: `make(orb.Polygon, 0, min(num, MaxMultiAlloc))`, then `readLineString` per ring. -/
+def readPolygonAlloc (o : Order) (s : Bytes) : Nat :=
+  match readU32 o s with
+  | .ok (num, s) => szSlice * allocCap num wkb_MaxMultiAlloc + readRingsLoopAlloc o num s
+  | _ => 0
+
+/-- member loop of `readMultiPoint` / `readMultiLineString` / `readMultiPolygon`. -/
+def readMembersAlloc {β : Type} (want : Nat) (rd : Order → Bytes → R (β × Bytes)) (rdAlloc : Order → Bytes → Nat) :
+    Nat → Bytes → Nat
+  | 0, _ => 0
+  | n+1, s =>
+    match readBOT s with
+    | .ok (o, typ, _, s) =>
+      if typ ≠ want then 0 else
+      rdAlloc o s +
+      match rd o s with
+      | .ok (_, s) => readMembersAlloc want rd rdAlloc n s
+      | _ => 0
+    | _ => 0
+
+/-- `Decoder.Decode`: the 8-byte buffer, then the `make` of the reader the header selects
+    (`readMultiPoint` caps with `MaxPointsAlloc`, the other multis with `MaxMultiAlloc`). -/
+def decodeWithAlloc (collAlloc : Order → Bytes → Nat) (s : Bytes) : Nat :=
+  szBuf +
+  match readBOT s with
+  | .ok (o, typ, _, s) =>
+    if typ = wkb_pointType then 0
+    else if typ = wkb_multiPointType then
+      match readU32 o s with
+      | .ok (num, s) =>
+        szPoint * allocCap num wkb_MaxPointsAlloc + readMembersAlloc wkb_pointType readPoint (fun _ _ => 0) num s
+      | _ => 0
+    else if typ = wkb_lineStringType then readLineStringAlloc o s
+    else if typ = wkb_multiLineStringType then
+      match readU32 o s with
+      | .ok (num, s) =>
+        szSlice * allocCap num wkb_MaxMultiAlloc +
+          readMembersAlloc wkb_lineStringType readLineString readLineStringAlloc num s
+      | _ => 0
+    else if typ = wkb_polygonType then readPolygonAlloc o s
+    else if typ = wkb_multiPolygonType then
+      match readU32 o s with
+      | .ok (num, s) =>
+        szSlice * allocCap num wkb_MaxMultiAlloc +
+          readMembersAlloc wkb_polygonType readPolygon readPolygonAlloc num s
+      | _ => 0
+    else if typ = wkb_geometryCollectionType then collAlloc o s
+    else 0
+  | _ => 0
+
+/-- loop of `readCollection`: one `Decode` per member. -/
+def collLoopAlloc (dec : Bytes → R (G × Nat × Bytes)) (decAlloc : Bytes → Nat) : Nat → Bytes → Nat
+  | 0, _ => 0
+  | n+1, s =>
+    decAlloc s +
+    match dec s with
+    | .ok (_, _, s) => collLoopAlloc dec decAlloc n s
+    | _ => 0
+
+/-- `readCollection`: `make(orb.Collection, 0, min(num, MaxMultiAlloc))`, then the loop. -/
+def readCollectionAllocF : Nat → Order → Bytes → Nat
+  | 0, _, _ => 0
+  | fuel+1, o, s =>
+    match readU32 o s with
+    | .ok (num, s) =>
+      szIface * allocCap num wkb_MaxMultiAlloc +
+        collLoopAlloc (decodeWith (readCollectionF fuel)) (decodeWithAlloc (readCollectionAllocF fuel)) num s
+    | _ => 0
+
+/-- `Decode()` on a fresh reader over `data`. -/
+def decodeAlloc (data : Bytes) : Nat := decodeWithAlloc (readCollectionAllocF data.length) data
+
+/-- `Unmarshal`. -/
+def unmarshalAlloc (data : Bytes) : Nat :=
+  match unmarshalBOT data with
+  | .ok (o, typ, _, geomData) =>
+    let fuel := data.length
+    if typ = wkb_pointType then 0
+    else if typ = wkb_multiPointType then unmarshalMultiPointAlloc fuel o geomData
+    else if typ = wkb_lineStringType then unmarshalPointsAlloc o geomData
+    else if typ = wkb_multiLineStringType then unmarshalMultiLineStringAlloc fuel o geomData
+    else if typ = wkb_polygonType then unmarshalPolygonAlloc o geomData
+    else if typ = wkb_multiPolygonType then unmarshalMultiPolygonAlloc fuel o geomData
+    else if typ = wkb_geometryCollectionType then decodeAlloc data
+    else 0
+  | _ => 0
+
+/-- `wkbcommon.Scan` after the framing has been removed: the decoder the destination selects. -/
+def scanDestAlloc (dest : Dest) (data : Bytes) : Nat :=
+  let fuel := data.length
+  match dest with
+  | .any | .multiPoint | .ring | .bound => unmarshalAlloc data
+  | .point =>
+    scanSingleAlloc wkb_pointType wkb_multiPointType (fun _ _ => 0) (unmarshalMultiPointAlloc fuel) data
+  | .lineString =>
+    scanSingleAlloc wkb_lineStringType wkb_multiLineStringType unmarshalPointsAlloc
+      (unmarshalMultiLineStringAlloc fuel) data
+  | .multiLineString =>
+    scanSingleAlloc wkb_lineStringType wkb_multiLineStringType unmarshalPointsAlloc
+      (unmarshalMultiLineStringAlloc fuel) data
+  | .polygon =>
+    scanSingleAlloc wkb_polygonType wkb_multiPolygonType unmarshalPolygonAlloc
+      (unmarshalMultiPolygonAlloc fuel) data
+  | .multiPolygon =>
+    scanSingleAlloc wkb_polygonType wkb_multiPolygonType unmarshalPolygonAlloc
+      (unmarshalMultiPolygonAlloc fuel) data
+  | .collection => decodeAlloc data
+
+/-! ##### what the property promises: at most proportional to the input, plus a fixed cap -/
+
+/-- bytes per input byte (the worst ratio is a nested collection header: 9 bytes buy an 8-byte buffer
+    and `MaxMultiAlloc` interface slots) -/
+def allocPerByte : Nat := 200
+/-- the fixed part: one open `MultiPolygon` + `Polygon` + ring, each at its cap, plus the buffer -/
+def allocFixed : Nat := szBuf + 2 * (szSlice * wkb_MaxMultiAlloc) + szPoint * wkb_MaxPointsAlloc
+
+/-! ##### the family of inputs on which the byte-slice multi decoders are quadratic -/
+
+/-- `k` nested one-member multi headers of type `t` (little endian). -/
+def nestHeaders (t : Nat) : Nat → Bytes
+  | 0 => []
+  | k+1 => (1 :: u32 .little t ++ u32 .little 1) ++ nestHeaders t k
+
+/-- A multi of type `t` claiming `k+1` members, followed by `k` nested one-member multi headers and an
+    empty member of type `leaf` (`LINESTRING EMPTY` / a polygon without rings): member `i` is read as
+    the chain of the remaining `k-i` headers, and the next member starts 9 bytes later. -/
+def nestedMultiInput (t leaf k : Nat) : Bytes :=
+  (1 :: u32 .little t ++ u32 .little (k + 1)) ++ nestHeaders t k ++ (1 :: u32 .little leaf ++ u32 .little 0)
+
 end Orb.WKB
